@@ -57,6 +57,55 @@ class LossyInterp(Interp):
         return Interp.rvalue(self, fr, s)
 
 
+class Fx:
+    """f64 value represented exactly as a signed 64-bit fixed-point number with 6 fractional bits (value * 64).
+    Sound only in the stated domain of the query check (dyadic thresholds a/64, epsilon = 1/width with width | 64,
+    n < 2^20): every float operation of `query` is exact there, so IEEE semantics = exact arithmetic."""
+    def __init__(self, v):
+        self.v = v
+
+
+class LossyFixInterp(LossyInterp):
+    def operand(self, fr, s):
+        s = s.strip()
+        m = re.match(r'^const (-?[\d.]+)f64$', s)
+        if m:
+            x = float(m.group(1)) * 64
+            assert x == int(x)
+            return Fx(bv(int(x)))
+        return LossyInterp.operand(self, fr, s)
+
+    def rvalue(self, fr, s):
+        s = s.strip()
+        m = re.match(r'^(Sub|Mul|Add)\((.*)\)$', s)
+        if m:
+            a = [self.operand(fr, x) for x in split_top(m.group(2))]
+            if isinstance(a[0], Fx):
+                x, y = a[0].v, a[1].v
+                if m.group(1) == 'Sub':
+                    return Fx(x - y)
+                if m.group(1) == 'Add':
+                    return Fx(x + y)
+                return Fx((x * y) >> 6)      # exact: one factor is an integer (multiple of 64)
+        m = re.match(r'^(.*) as f64 \(IntToFloat\)$', s)
+        if m:
+            return Fx(self.operand(fr, m.group(1)) << 6)
+        m = re.match(r'^(.*) as usize \(FloatToInt\)$', s)
+        if m:
+            x = self.operand(fr, m.group(1)).v
+            return z3.If(x < 0, bv(0), x >> 6)
+        return LossyInterp.rvalue(self, fr, s)
+
+    def call(self, fr, fname, args):
+        if fname.endswith('f64>::ceil'):
+            x = self.operand(fr, args[0]).v
+            return Fx(((x + 63) >> 6) << 6)      # arithmetic shift = floor; (x+63)>>6 = ceil(x/64)
+        if fname.endswith('f64>::max'):
+            x, y = self.operand(fr, args[0]).v, self.operand(fr, args[1]).v
+            return Fx(z3.If(x >= y, x, y))
+        return LossyInterp.call(self, fr, fname, args)
+
+
 def state(prefix=''):
     present = [z3.Bool('%sp%d' % (prefix, k)) for k in range(K)]
     f = [z3.BitVec('%sf%d' % (prefix, k), 64) for k in range(K)]
@@ -67,10 +116,12 @@ def state(prefix=''):
     return present, f, d, T, n, width
 
 
-def inv_A(present, f, d, T, n, width, B):
+def inv_A(present, f, d, T, n, width, B, divf=None, remf=None):
     """(A): tracked x: f>=1, f<=T<=f+delta, delta<=ceil(n/w)-1 ; untracked x: T<=floor(n/w); n = sum T."""
-    bfloor = UDIV(n, width)
-    bceil = z3.If(UREM(n, width) == 0, bfloor, bfloor + 1)
+    divf = divf or UDIV
+    remf = remf or UREM
+    bfloor = divf(n, width)
+    bceil = z3.If(remf(n, width) == 0, bfloor, bfloor + 1)
     cs = [z3.UGE(width, 1), z3.ULT(n, B), z3.ULT(width, 2 ** 62)]
     tot = bv(0)
     for k in range(K):
@@ -97,14 +148,23 @@ def div_lemmas(n, width):
 
 
 def lemma_obligation():
-    """The successor form of the division lemma, discharged with real bvudiv/bvurem at 16 bits (all values)."""
-    n = z3.BitVec('ln', 16)
-    w = z3.BitVec('lw', 16)
+    """Successor form of the division lemma. (1) over mathematical integers for all n >= 0, w > 0 (Euclidean division is
+    unique; bvudiv/bvurem coincide with it and n+1 does not wrap because n < 2^61); (2) bit-level sanity on all 8-bit words."""
+    n, w, q, r, q2, r2 = z3.Ints('ln lw lq lr lq2 lr2')
     s = z3.Solver()
+    s.set('timeout', 120000)
+    s.add(w > 0, n >= 0, n == q * w + r, 0 <= r, r < w, n + 1 == q2 * w + r2, 0 <= r2, r2 < w)
+    s.add(z3.Not(z3.And(z3.Implies(r + 1 == w, z3.And(r2 == 0, q2 == q + 1)), z3.Implies(r + 1 != w, z3.And(r2 == r + 1, q2 == q)))))
+    if s.check() != z3.unsat:
+        return False
+    n = z3.BitVec('bn', 8)
+    w = z3.BitVec('bw', 8)
+    s = z3.Solver()
+    s.set('timeout', 120000)
     r0, q0 = z3.URem(n, w), z3.UDiv(n, w)
-    s.add(w != 0, n != 0xffff)
-    s.add(z3.Not(z3.And(z3.ULT(r0, w), n == q0 * w + r0,
-                        z3.URem(n + 1, w) == z3.If(r0 + 1 == w, z3.BitVecVal(0, 16), r0 + 1),
+    s.add(w != 0, n != 0xff)
+    s.add(z3.Not(z3.And(z3.ULT(r0, w), z3.ULE(q0, n),
+                        z3.URem(n + 1, w) == z3.If(r0 + 1 == w, z3.BitVecVal(0, 8), r0 + 1),
                         z3.UDiv(n + 1, w) == z3.If(r0 + 1 == w, q0 + 1, q0))))
     return s.check() == z3.unsat
 
@@ -265,21 +325,24 @@ def run_new(fns, timeout_ms):
     return out
 
 
-def run_query(fns, width_c, timeout_ms):
+def run_query(fns, width_c, timeout_ms, thresholds=None):
     """query(s) from the invariant, for a concrete power-of-two width (epsilon = 1/width exact), s = a/64, n < 2^20:
     every x with T >= s*n and T > eps*n is returned; no x with T < (s-eps)*n is returned."""
     t0 = time.time()
-    I = LossyInterp(fns, K)
+    assert 64 % width_c == 0
+    I = LossyFixInterp(fns, K)
     fn = I.find(r'lossycounter::<impl.*>::query$')
     clo = I.find(r'lossycounter::<impl.*>::query::\{closure#0\}$')
     present, f, d, T, n, width = state()
-    eps = z3.FPVal(1.0 / width_c, z3.Float64())
+    eps = Fx(bv(64 // width_c))
     a = z3.BitVec('a', 64)
-    thr = z3.fpDiv(z3.RNE(), z3.fpUnsignedToFP(z3.RNE(), a, z3.Float64()), z3.FPVal(64.0, z3.Float64()))
+    thr = Fx(a)
     m = MapObj(K, present, [Struct('KnownEntry', [f[k], d[k]]) for k in range(K)])
     world = {'locals': {'self': Struct('LossyCounter', [eps, m, n, width])}}
     I.world = world
-    pre = z3.And(width == width_c, inv_A(present, f, d, T, n, width, 2 ** 20), z3.ULE(a, 64), n == UDIV(n, width) * width + UREM(n, width), z3.ULT(UREM(n, width), width))
+    # the width is concrete here: division by a constant is decided with the real bvudiv/bvurem
+    wc = bv(width_c)
+    pre = z3.And(width == width_c, inv_A(present, f, d, T, n, wc, 2 ** 20, lambda x, y: z3.UDiv(x, y), lambda x, y: z3.URem(x, y)), z3.ULE(a, 64))
     res = I.run(fn, [Ref((('local', world, 'self'), [])), thr], z3.BoolVal(True))
     out = {'paths': len(res), 'queries': 0, 'failed': [], 'witnesses': {}, 'cexs': {}}
     for pc, kind, val, snap in res:
@@ -294,27 +357,37 @@ def run_query(fns, width_c, timeout_ms):
         it = val
         assert isinstance(it, Opaque) and it.kind == 'iter', it
         for k in range(K):
-            item = [Ref((('val', Ref((('val', bv(k)), []))), [])), Ref((('val', Ref((('val', m.vals[k])), []))), [])]
+            item = [Ref((('val', bv(k)), [])), Ref((('val', m.vals[k]), []))]
             keep, pan = I.run_closure(clo, it.pred, item)
             returned = z3.And(present[k], keep)
             # integer form of the thresholds (exact in this domain): 64*T >= a*n ; T*width > n ; 64*width*T < (a*width - 64)*n
             Tk = T[k]
             frequent = z3.And(z3.UGE(64 * Tk, a * n), z3.UGT(Tk * width_c, n))
             rare = z3.And(z3.UGE(a * width_c, 64), z3.ULT(64 * width_c * Tk, (a * width_c - 64) * n))
-            for tag, post in (('query_contains_every_frequent_element', z3.Implies(frequent, returned)),
-                              ('query_contains_no_gross_intruder', z3.Implies(rare, z3.Not(returned))),
-                              ('query_only_tracked_elements', z3.Implies(returned, present[k]))):
-                out['queries'] += 1
-                r, mm = solve([pre, pc, z3.Not(post)], timeout_ms)
-                if r == z3.sat and tag not in out['failed']:
-                    out['failed'].append(tag)
-                    out['cexs'][tag] = cex_of(mm, present, f, d, T, n, width, None, {'op': 'query', 'a64': mm.eval(a, model_completion=True).as_long(), 'key': k})
-                elif r == z3.unknown:
-                    out['failed'].append('UNKNOWN:' + tag)
-            if solve([pre, pc, frequent], timeout_ms)[0] == z3.sat:
-                out['witnesses']['frequent_exists'] = 1
-            if solve([pre, pc, rare, present[k]], timeout_ms)[0] == z3.sat:
-                out['witnesses']['rare_tracked_exists'] = 1
+            goals = (('query_contains_every_frequent_element', z3.Implies(frequent, returned)),
+                     ('query_contains_no_gross_intruder', z3.Implies(rare, z3.Not(returned))),
+                     ('query_only_tracked_elements', z3.Implies(returned, present[k])))
+            # case split over the 65 thresholds a/64: every multiplication becomes one by a constant
+            for a_c in (thresholds or range(65)):
+                sub = lambda e: z3.simplify(z3.substitute(e, (a, bv(a_c))))
+                base = [sub(pre), sub(pc)]
+                for tag, post in goals:
+                    out['queries'] += 1
+                    _t = time.time()
+                    r, mm = solve(base + [sub(z3.Not(post))], timeout_ms, z3_first_ms=1500)
+                    if time.time() - _t > 3:
+                        import sys as _s
+                        print('slow query k=%d a=%d %s %s %.1fs' % (k, a_c, tag, r, time.time() - _t), file=_s.stderr, flush=True)
+                    if r == z3.sat and tag not in out['failed']:
+                        out['failed'].append(tag)
+                        out['cexs'][tag] = cex_of(mm, present, f, d, T, n, width, None, {'op': 'query', 'a64': a_c, 'key': k})
+                    elif r == z3.unknown and ('UNKNOWN:' + tag) not in out['failed']:
+                        out['failed'].append('UNKNOWN:' + tag)
+                if a_c in (16, 48) and k == 0:
+                    if solve(base + [sub(frequent)], timeout_ms)[0] == z3.sat:
+                        out['witnesses']['frequent_exists'] = 1
+                    if solve(base + [sub(rare), present[k]], timeout_ms)[0] == z3.sat:
+                        out['witnesses']['rare_tracked_exists'] = 1
     out['wall_s'] = round(time.time() - t0, 1)
     return out
 
@@ -324,12 +397,12 @@ def run(fns, unit):
     what = unit['what_m']
     if what == 'add':
         r = run_add(fns, tmo)
-        r['queries'] += 1
+        r['queries'] += 2
         if not lemma_obligation():
             r['failed'].append('MODEL: division successor lemma not discharged')
         return r
     if what == 'new_clear_clone':
         return run_new(fns, tmo)
     if what == 'query':
-        return run_query(fns, unit['width'], tmo)
+        return run_query(fns, unit['width'], tmo, unit.get('thresholds'))
     return {'error': 'unknown lossy unit'}
